@@ -554,11 +554,19 @@ func (c *Ctl) Op(b ` + param + `) (` + ret + `, error) {
 `
 }
 
-func vh_C07_front_models_Q() {
+func vh_C07_front_models_Q() { vhC07FrontModels(false) }
+
+// C11 through the front end: the components of the two documents agree, type shape by type shape
+func vh_C11_front_components_Q() { vhC07FrontModels(true) }
+
+func vhC07FrontModels(agreementOnly bool) {
 	nT := len(vhFrontFieldTypes)
 	f0 := vhFrontFieldTypes[symxChoice("f0", nT)]
-	f1 := vhFrontFieldTypes[symxChoice("f1", nT)]
-	param := []string{"Inner", "Leaf", "[]Inner"}[symxChoice("param", 3)]
+	f1, param := "string", "Inner"
+	if !agreementOnly {
+		f1 = vhFrontFieldTypes[symxChoice("f1", nT)]
+		param = []string{"Inner", "Leaf", "[]Inner"}[symxChoice("param", 3)]
+	}
 	ret := []string{"string", "Leaf", "Color", "[]Inner"}[symxChoice("ret", 4)]
 	fr, err := visitors.VhLoadSource(vhFrontModelSource(f0, f1, param, ret), nil)
 	symxAssert(err == nil, "C07.front.fixture-loads")
@@ -627,6 +635,13 @@ func vh_C07_front_models_Q() {
 	for _, n := range want {
 		p31, _ := doc31.Components.Schemas.Get(n)
 		views[n] = []vhSchemaView{vhView30(doc30.Components.Schemas[n]), vhView31(p31)}
+	}
+	if agreementOnly {
+		symxCover("C11.front.components-compared")
+		for _, n := range want {
+			symxAssert(vhSameView(views[n][0], views[n][1]), "C11.front.component-agrees-in-both-documents")
+		}
+		return
 	}
 	for vi, ver := range []string{"30", "31"} {
 		if reach["Inner"] {
